@@ -49,6 +49,9 @@ def cases(rng, tier, X):
                 f = f[:2 * mtu]
             ops.append('rx 0 ' + f)
         out.append(('e%d' % k, ops))
+    # universal traffic (every frame type / sender / path / service / boundary value, 1..3 interfaces): this check's predicate on it
+    for k in range(60 if tier == 'quick' else 6000):
+        out.append(('u%d' % k, F.universal(rng)))
     return out
 
 
